@@ -145,6 +145,43 @@ mod sync {
     pub(super) use loom::sync::atomic;
 }
 
+#[cfg(feature = "verif-hooks")]
+#[doc(hidden)]
+pub mod __verif {
+    //! Verification hooks. Nothing here changes behaviour unless an oracle is installed.
+
+    use std::boxed::Box;
+    use std::cell::RefCell;
+
+    std::thread_local! {
+        static ORACLE: RefCell<Option<Box<dyn FnMut() -> bool>>> = RefCell::new(None);
+    }
+
+    /// Installs (or removes) the starvation oracle of the current thread.
+    ///
+    /// While installed, it replaces the wall-clock test of the mutex slow path.
+    pub fn set_starvation_oracle(oracle: Option<Box<dyn FnMut() -> bool>>) {
+        ORACLE.with(|o| *o.borrow_mut() = oracle);
+    }
+
+    pub(crate) fn starvation_oracle() -> Option<bool> {
+        ORACLE.with(|o| o.borrow_mut().as_mut().map(|f| f()))
+    }
+
+    /// Raw words and listener counts of a primitive, in a primitive-specific order.
+    #[derive(Debug, Clone, PartialEq, Eq, Default)]
+    pub struct Snapshot {
+        /// Atomic state words.
+        pub words: std::vec::Vec<usize>,
+        /// `(total listeners, is_notified)` of each event.
+        pub events: std::vec::Vec<(usize, bool)>,
+    }
+
+    pub(crate) fn event(e: &event_listener::Event) -> (usize, bool) {
+        (e.total_listeners(), e.is_notified())
+    }
+}
+
 #[cold]
 fn abort() -> ! {
     // For no_std targets, panicking while panicking is defined as an abort
